@@ -67,6 +67,10 @@ func (s FieldQueryString) Build() (*FieldQuery, error) {
 }
 
 func (s FieldQueryString) build(v reflect.Value) (*FieldQuery, error) {
+	if !v.IsValid() {
+		// "null": a query that selects no field (BuildFieldQuery called without arguments)
+		return &FieldQuery{}, nil
+	}
 	switch v.Type().Kind() {
 	case reflect.String:
 		return s.buildString(v)
